@@ -258,6 +258,7 @@ def cfg_case(ctx, g, rng, index):
         for a in ("omega", "M0"):
             pts[-1][a] = float((pts[-1][a] + math.pi) % TWO_PI - math.pi)
     offs = []
+    first_point = None
     for k, th in enumerate(pts):
         if set(th) != set(names):
             continue
@@ -312,6 +313,8 @@ def cfg_case(ctx, g, rng, index):
             ctx.mismatch(REL_RV, g, inp, rv_s.tolist(), rv_ms.tolist(), "Lean samplerRV differs from the sampler's design matrix (harness oracle problem)")
         # ---- Gaussian data term, from the implementation's own model_rv
         var = sig ** 2 + s_du ** 2
+        if k == 0:
+            first_point = dict(th=th, rv=rv_impl.copy(), var=np.asarray(var, dtype=float).copy(), ll=ll_det)
         ll_true = ln_normal(y, rv_impl, var) if rv_impl.shape == y.shape else float("nan")
         ll_nojit = ln_normal(y, rv_impl, sig ** 2) if rv_impl.shape == y.shape else float("nan")
         tol_ll = 1e-9 * (1 + abs(ll_true))
@@ -354,6 +357,46 @@ def cfg_case(ctx, g, rng, index):
             violate(ctx, REL_LP, g, dict(cfg_desc, points=[pts[o[0]] for o in offs]), dict(logp_minus_prior_minus_data=vals.tolist()), dict(tol=tol),
                           "log-density over the physical parameters must equal ln prior(declared densities) + ln N(y|model, sigma^2+s^2) up to ONE constant",
                           tags=dict(tags0, where="logp-const"))
+    # ---------------- call history: the same prior / model set up again for OTHER data -----------------------------
+    # (one prior, many stars).  The second call must either refuse or leave a model whose data term is that of the
+    # data it was given; silently keeping the first star's likelihood is a wrong posterior.
+    if index % 2 == 0 and first_point is not None and first_point["rv"].shape == y.shape:
+        import thejoker as tj
+        REL_H = "setup_mcmc called again on the same model with other data: refused, or the model is that of the new data"
+        shift = 5.0 * float(np.median(sig))
+
+        def shifted(dd):
+            return tj.RVData(t=dd.t, rv=dd.rv + shift * du, rv_err=dd.rv_err, t_ref=dd.t_ref)
+        if isinstance(pr.data, dict):
+            dataB = {kk: shifted(vv) for kk, vv in pr.data.items()}
+        elif isinstance(pr.data, (list, tuple)):
+            dataB = [shifted(vv) for vv in pr.data]
+        else:
+            dataB = shifted(pr.data)
+        refused = None
+        with fast():
+            try:
+                with model:
+                    joker.setup_mcmc(dataB, lib)
+            except Exception as e:   # noqa: BLE001
+                refused = f"{type(e).__name__}: {str(e)[:120]}"
+        ctx.evaluated(REL_H, (index,))
+        if refused is not None:
+            ctx.count("second setup_mcmc call with other data: refused")
+        else:
+            with fast():
+                f2 = model.compile_fn(model.replace_rvs_by_values([model["model_rv"], model["ln_likelihood"]]),
+                                      inputs=model.value_vars, on_unused_input="ignore")
+            o2 = f2(value_point(model, first_point["th"]))
+            rv2, ll2 = np.asarray(o2[0], dtype=float).ravel(), float(o2[1])
+            want_B = ln_normal(y + shift, rv2, first_point["var"]) if rv2.shape == y.shape else float("nan")
+            ctx.count("second setup_mcmc call with other data: accepted")
+            if not abs(ll2 - want_B) <= 1e-8 * (1 + abs(want_B)):
+                violate(ctx, REL_H, g, dict(cfg_desc, point=first_point["th"], second_data="every velocity raised by %r %s" % (shift, du)),
+                        dict(ln_likelihood_after_second_call=ll2, ln_likelihood_after_first_call=first_point["ll"]),
+                        dict(gaussian_term_of_the_second_data=want_B),
+                        "after setup_mcmc(data_B, ...) on a model already set up for data_A the model's ln_likelihood must be the Gaussian "
+                        "term of data_B (or the call must refuse): it is still that of data_A", tags=dict(tags0, where="second-call"))
 
 
 def median_case(ctx, g, rng):
@@ -413,6 +456,8 @@ def run_case(ctx, g):
 
 
 def post(ctx):
+    ctx.require("setup_mcmc called a second time with other data on the same model",
+                ctx.counters["second setup_mcmc call with other data: refused"] + ctx.counters["second setup_mcmc call with other data: accepted"], 5)
     c = ctx.counters
     ctx.rule = RULE
     ctx.extra["exhaustive"] = False
